@@ -49,9 +49,16 @@ def AREL(ids, tok=8):
     return {"mt": "AnnotatedRelationshipElement", "ids": ids, "tok": tok, "quals": [], "children": [], "ctype": 0, "val": None}
 
 
+G.RSI_IDS.update({SM2, "urn:dangling"})     # references to these carry a referredSemanticId
+
+# code points that are not allowed in an XML document (C0 controls, DEL is allowed, U+FFFE, U+FFFF); lone surrogates
+# cannot be sent as UTF-8 (they arrive as undecodable bytes: the `nonutf8` variants)
+XML_ILLEGAL = [0x00, 0x01, 0x0b, 0x1f, 0xfffe, 0xffff]
+
+
 def fixture():
     sm1 = {"k": "sm", "id": SM1, "ids": "Sm1", "tok": 1, "quals": [("q1", 1), ("q2", 2)], "elems": [
-        P("p1", 1, [("q1", 5), ("q2", 6)]), REL("r1"), AREL("r2"),
+        P("p1", 1, [("q1", 5), ("q2", 6)]), REL("r1"), AREL("r2"), P("v1", 2),
         C("c1", [P("p2", 3), C("c2", [P("p3", 3)])], quals=[("q2", 6)]),
         L("l1", [P(None, 5)]),
         F("f1", None), F("f2", "/aasx/x.txt"), F("f3", "http://ext/x.txt"), F("f4", "/aasx/missing.txt"),
@@ -82,6 +89,10 @@ def id_variants(arg):
     yield "nonascii", "ä"
     yield "nonascii-mixed", b64(v)[:4] + "é" + b64(v)[4:]
     yield "ctrlchar", base64.urlsafe_b64encode(b"a\x01b").decode()
+    for cp in XML_ILLEGAL:
+        yield f"xmlbad-{cp:04x}", b64("a" + chr(cp) + "b")
+    yield "xmlbad-surrogate", base64.urlsafe_b64encode(b"a\xed\xa0\x80b").decode()
+    yield "xmlbad-raw-ffff", "a\uffffb"
     yield "stdalphabet", b64(">>>???").replace("-", "+").replace("_", "/").replace("/", "_")
     if arg == "sm":
         yield "dangling", b64("urn:dangling")
@@ -94,7 +105,8 @@ PATHS = [("valid", "p1"), ("nested", "c1.c2.p3"), ("unknown", "zz"), ("nested-un
          ("bad-syntax", "1a"), ("empty-seg", "c1..p2"), ("toolong", "a" * 200), ("deep", ".".join(["c1"] * 30)),
          ("file-none", "f1"), ("file-int", "f2"), ("file-ext", "f3"), ("file-missing", "f4"), ("blob", "b1"),
          ("blob-none", "b2"), ("coll", "c1"), ("nonascii", "pä"), ("underscore", "_a"), ("dash", "a-b"),
-         ("rel", "r1"), ("arel", "r2")]
+         ("rel", "r1"), ("arel", "r2")] + [(f"xmlbad-{cp:04x}", "a" + chr(cp) + "b") for cp in XML_ILLEGAL] \
+        + [("classchange", "v1")]
 
 ACCEPTS = [(None, "json"), ("application/json", "json"), ("application/xml", "xml"), ("text/xml", "textxml"),
            ("*/*", "json"), ("image/png", "none"), ("text/*", "textxml"), ("application/*;q=0.1, text/xml", "textxml"),
@@ -140,7 +152,11 @@ QUERIES = [  # (label, [(key, raw)], qlabels)
     ("semid-array", [("semanticId", b64("[]"))], {"semanticId": "bad422"}),
     ("semid-null", [("semanticId", b64("null"))], {"semanticId": "bad422"}),
     ("semid-object", [("semanticId", _sad({"modelType": "Submodel", "id": "x"}))], {"semanticId": "bad422"}),
-]
+] + [(f"xmlbad-assetids-{cp:04x}", [("assetIds", "a" + chr(cp) + "b")], {"assetIds": ["bad400" if cp > 127 else "bad422"]})
+     for cp in XML_ILLEGAL] \
+  + [(f"xmlbad-semid-{cp:04x}", [("semanticId", "a" + chr(cp) + "b")], {"semanticId": "bad400" if cp > 127 else "bad422"})
+     for cp in (0x01, 0xfffe, 0xffff)] \
+  + [(f"xmlbad-limit-{cp:04x}", [("limit", "1" + chr(cp))], {}) for cp in (0x01, 0xffff)]
 
 VALUES = [  # (label, abstract value)
     ("sm-new", {"k": "sm", "id": "urn:new:1", "ids": "New", "tok": 9, "quals": [("q2", 7)], "elems": [P("n1", 1)]}),
@@ -159,6 +175,11 @@ VALUES = [  # (label, abstract value)
     ("qual-odd", {"k": "qual", "type": QTYPES[2], "val": 4}),
     ("ref-new", {"k": "ref", "id": SM2}), ("ref-existing", {"k": "ref", "id": SM1}),
     ("ai", {"k": "ai", "tok": 5}),
+    # replace bodies in which a child keeps its idShort but changes its class
+    ("sm-classchange", {"k": "sm", "id": SM1, "ids": "Sm1", "tok": 9, "quals": [],
+                        "elems": [R("p1"), C("c1", [R("p2"), P("c2", 5)], tok=5), P("v1", 3), F("b1", None), B("f1", 1)]}),
+    ("coll-classchange", dict(C("c1", [R("p2", 7), F("c2", "/aasx/x.txt")], tok=7), k="elem")),
+    ("range-v1", dict(R("v1"), k="elem")),
     # sub-/superclass pairs for PUT over a stored element of the other class
     ("arel-r1", dict(AREL("r1", 9), k="elem")), ("rel-r2", dict(REL("r2", 9), k="elem")),
     ("rel-r1", dict(REL("r1", 9), k="elem")), ("arel-r2", dict(AREL("r2", 9), k="elem")),
@@ -258,12 +279,15 @@ def matrix(routes, rng, full, expects=None):
                         bodies = [RB[0], RB[3]] + [(f"{lab}-json", ("val", "json", v)) for lab, v in VALUES[::3]]
                 for blab, body in bodies:
                     out.append(dict(base, body=body, cls=f"{vlab}|body:{blab}"))
-                if routed and ("ctrlchar" in vlab or "nonascii" in vlab or "nonutf8" in vlab):
+                if routed and any(t in vlab for t in ("ctrlchar", "nonascii", "nonutf8", "xmlbad")):
                     for acc in ACCEPTS[2:4]:
                         out.append(dict(base, accept=acc, cls=f"{vlab}|accept:{acc[0]}"))
                 if vlab == "valid" and m == "GET" and routed:
                     for qlab, q, ql in QUERIES:
                         out.append(dict(base, query=q, qlabels=ql, cls="query:" + qlab))
+                        if qlab.startswith("xmlbad"):
+                            for acc in ACCEPTS[2:4]:
+                                out.append(dict(base, query=q, qlabels=ql, accept=acc, cls=f"query:{qlab}|accept:{acc[0]}"))
                     for acc in ACCEPTS:
                         out.append(dict(base, accept=acc, cls="accept:" + str(acc[0])))
                     for acc in ACCEPTS[2:4]:
